@@ -154,3 +154,113 @@ def replay_aligned_lists(p):
           w is not None and len(w) == len(want_w) and all(a == b for a, b in zip(w, want_w)))
     return {"reproduced": not ok, "expected": "population %r weights %r" % (want_pop, want_w),
             "observed": "population %r weights %r" % (pop, w)}
+
+
+@register("monotone")
+def replay_monotone(p):
+    """A unit at hash position k must not move to a later group when no leading cumulative
+    share decreases."""
+    from pyab_experiment.binning import binning
+    wa, wb, k = dec(p["weights_a"]), dec(p["weights_b"]), p["position_k"]
+    real = binning.deterministic_proba
+    binning.deterministic_proba = lambda s, _k=k: _k / 0x100000000
+    try:
+        n = len(wa)
+        oa = outcome_of(lambda: binning.deterministic_choice("u", list(range(n)), list(wa)))
+        ob = outcome_of(lambda: binning.deterministic_choice("u", list(range(n)), list(wb)))
+    finally:
+        binning.deterministic_proba = real
+    bad = oa[0] == "value" and ob[0] == "value" and ob[1] > oa[1]
+    return {"reproduced": bad, "expected": "group index under the second vector <= index under the first",
+            "observed": "first: %s, second: %s" % (show(oa), show(ob))}
+
+
+@register("rehash")
+def replay_rehash(p):
+    """The string hashed by deterministic_choice must be exactly its input_id (one position
+    per unit, whatever the weights)."""
+    from pyab_experiment.binning import binning
+    seen = []
+    real = binning.deterministic_proba
+
+    def rec(s):
+        seen.append(s)
+        return real(s)
+    binning.deterministic_proba = rec
+    try:
+        outs = []
+        for w in ([1.0, 2.0, 3.0], [3.0, 2.0, 1.0], None):
+            outs.append(outcome_of(lambda: binning.deterministic_choice("unit-7", ["A", "B", "C"], w)))
+    finally:
+        binning.deterministic_proba = real
+    bad = any(s != "unit-7" for s in seen) or len(seen) != 3
+    return {"reproduced": bad, "expected": "hashed strings ['unit-7']*3", "observed": "hashed %r" % (seen,)}
+
+
+def _with_position(k, fn):
+    from pyab_experiment.binning import binning
+    real = binning.deterministic_proba
+    if k is not None:
+        binning.deterministic_proba = lambda s, _k=k: _k / 0x100000000
+    try:
+        return fn()
+    finally:
+        binning.deterministic_proba = real
+
+
+@register("choice_pair")
+def replay_choice_pair(p):
+    """Two call forms of deterministic_choice must select the same item at hash position k."""
+    from pyab_experiment.binning import binning
+
+    def call(c):
+        args = [dec(a) for a in c["args"]]
+        kwargs = {k: dec(v) for k, v in c["kwargs"].items()}
+        return outcome_of(lambda: binning.deterministic_choice(*args, **kwargs))
+    oa = _with_position(p["position_k"], lambda: call(p["a"]))
+    ob = _with_position(p["position_k"], lambda: call(p["b"]))
+    same = oa[0] == ob[0] and oa[1] == ob[1]
+    return {"reproduced": not same, "expected": "same item from both call forms", "observed": "%s | %s" % (show(oa), show(ob))}
+
+
+@register("choice_mutation")
+def replay_choice_mutation(p):
+    import copy
+    from pyab_experiment.binning import binning
+    args = [dec(a) for a in p["args"]]
+    kwargs = {k: dec(v) for k, v in p["kwargs"].items()}
+    before = copy.deepcopy((args, kwargs))
+    o = outcome_of(lambda: binning.deterministic_choice(*args, **kwargs))
+    changed = before != (args, kwargs)
+    return {"reproduced": changed, "expected": "arguments unchanged", "observed": "after the call: %r %r; %s" % (args, kwargs, show(o))}
+
+
+@register("random_forward")
+def replay_random_forward(p):
+    """input_id=None must behave as random.choices(population, weights, cum_weights=..., k=1)[0]"""
+    import random
+    from pyab_experiment.binning import binning
+    pop, w = ["a", "b", "c", "d"], [1.0, 0.0, 2.0, 0.0]
+    bad = []
+    for seed in range(50):
+        random.seed(seed)
+        got = outcome_of(lambda: binning.deterministic_choice(None, pop, w))
+        random.seed(seed)
+        want = random.choices(pop, w, k=1)[0]
+        if not (got[0] == "value" and got[1] == want):
+            bad.append((seed, show(got), want))
+    return {"reproduced": bool(bad), "expected": "same draws as random.choices under the same seed", "observed": repr(bad[:3])}
+
+
+@register("random_zero")
+def replay_random_zero(p):
+    import random
+    from pyab_experiment.binning import binning
+    pop, w = ["a", "b", "c", "d"], [1.0, 0.0, 2.0, 0.0]
+    bad = []
+    for seed in range(2000):
+        random.seed(seed)
+        got = outcome_of(lambda: binning.deterministic_choice(None, pop, w))
+        if got[0] != "value" or got[1] in ("b", "d"):
+            bad.append((seed, show(got)))
+    return {"reproduced": bool(bad), "expected": "never a zero-weight item", "observed": repr(bad[:3])}
